@@ -121,6 +121,8 @@ def sized_junk_case(rng):
     w = (record(BEGIN, rid, [0, rng.choice([1, 3]), 0x41, 0, 0, 0, 0, 0], 0) + record(PARAMS, rid, payload[:cut], rng.choice([0, 5])) + junk
          + record(PARAMS, rid, payload[cut:], 0) + record(PARAMS, rid, [], rng.choice([0, 7])) + record(STDIN, rid, [], 0))
     sched = rng.choice([[], [1] * len(w), schedule(rng, len(w), "random"), schedule(rng, len(w), "small")])
+    if P > 1024 and len(sched) > 1000:
+        sched = schedule(rng, len(w), "random")          # (byte-wise schedules over records of tens of KiB make the model run for minutes)
     return case("req_run", [rng.choice([256, 8192])], [5], w, sched), ["preamble", "junk", "sized-junk", "multi-record"] + (["chunked"] if sched else [])
 
 
